@@ -6,6 +6,7 @@ import (
 	"fmt"
 	"os"
 	"os/exec"
+	"strconv"
 	"strings"
 	"testing"
 
@@ -344,6 +345,19 @@ func genC15Mut(t *rapid.T) c15Case {
 			// the digit count as another language's integer parser would read it: radix prefixes, separators, signs (not
 			// decimal numbers: malformed), and leading zeros (a decimal number all the same: if accepted, it is that number)
 			d := rapid.SampledFrom([]string{"0x8", "0X8", "0xA", "0b110", "0o10", "1_0", "#8", "8.0", "1e1", "8 ", " 8", "٦", "６", "010", "012", "08", "06", "006", "0010"}).Draw(t, "digitsAs")
+			if rapid.Bool().Draw(t, "digitsForeignByte") {
+				// a digit, a byte next to the digits in the code table (below '0': control bytes, blank, ! " # % & ' * + , . /; above
+				// '9': ; < = > ? @), perhaps another digit: a hand-written number reader that tests only one side of the digit range
+				// folds the foreign byte into the number
+				fb := rapid.SampledFrom([]byte{0, 1, 2, 7, 9, 10, 13, 27, 31, ' ', '!', '"', '#', '$', '%', '&', '\'', '(', ')', '*', '+', ',', '.', '/', ';', '<', '=', '>', '?', '@'}).Draw(t, "foreignByte")
+				d = strconv.Itoa(rapid.IntRange(0, 9).Draw(t, "d1")) + string(fb)
+				switch rapid.IntRange(0, 2).Draw(t, "foreignShape") {
+				case 1:
+					d += strconv.Itoa(rapid.IntRange(0, 9).Draw(t, "d2"))
+				case 2:
+					d = string(fb) + d[:1]
+				}
+			}
 			cp := strings.Split(parts[1], "-")
 			cp[len(cp)-1] = d
 			parts[1] = strings.Join(cp, "-")
